@@ -501,13 +501,14 @@ def extract_inputs(model, inputs, max_elems=4096):
     return out
 
 
-def verify_contract(loader, registry, con, dim_override=None, observed=False, inline=(), max_paths=400, timeout_ms=20000):
+def verify_contract(loader, registry, con, dim_override=None, observed=False, inline=(), max_paths=400, timeout_ms=20000, cases=None):
     """Symbolically execute the real function under its contract; return a FunctionReport."""
     from .interp import Interp, BoundMethod, Closure
 
     rep = FunctionReport(con.target, con.props, con.level)
     t_start = time.time()
-    for case in con.cases:
+    degraded = [False]
+    for case in (con.cases if cases is None else cases):
         worklist = [[]]
         npaths = 0
         while worklist:
@@ -517,7 +518,7 @@ def verify_contract(loader, registry, con, dim_override=None, observed=False, in
                 rep.undecided.append("%s[%s]: more than %d paths" % (con.target, case, max_paths))
                 break
             V.reset_fresh()
-            path = Path(decisions, observed_refinements=observed, prove_timeout_ms=timeout_ms)
+            path = Path(decisions, observed_refinements=observed, prove_timeout_ms=timeout_ms, degraded=degraded)
             path.enter()
             interp = None
             tag = "%s%s" % (con.target, "" if case is None else "[%s]" % (case,))
